@@ -27,8 +27,8 @@ use crate::repo::{MemBackend, MemSource, RepoHandle, SRC_ROOT, SrcEntry, SrcKind
 use crate::util::{Rng, Stats, errkind, guarded, hex, unhex};
 use rustic_core::repofile::{FileType, MasterKey, Node, SnapshotFile, Tree};
 use rustic_core::{
-    BackupOptions, ConfigOptions, Excludes, IndexedFull, RepairIndexOptions, RepairSnapshotsOptions, Repository,
-    RewriteOptions, RewriteTreesOptions, TreeId, last_modified_node,
+    BackupOptions, ConfigOptions, Excludes, IndexedFull, LimitOption, PruneOptions, RepairIndexOptions, RepairSnapshotsOptions,
+    Repository, RewriteOptions, RewriteTreesOptions, TreeId, last_modified_node,
 };
 
 // ---------------------------------------------------------------------------------------------------------
@@ -702,29 +702,56 @@ fn copy_model(h: &RepoHandle) -> Option<Vec<String>> {
     Some(out)
 }
 
-fn copy_exec(h: &RepoHandle, dest_v1: bool, dest_comp: i32) -> String {
+/// the packs of a repository in a run-independent order (by the smallest blob id they hold): `(pack id, holds a tree)`
+fn packs_by_content(h: &RepoHandle) -> Option<Vec<(rustic_core::Id, bool)>> {
+    use rustic_core::repofile::{BlobType, IndexFile};
+    let repo = open_nc(h).ok()?;
+    let mut v: Vec<(String, rustic_core::Id, bool)> = Vec::new();
+    for item in repo.stream_files::<IndexFile>().ok()? {
+        let (_, f) = item.ok()?;
+        for p in &f.packs {
+            let min = p.blobs.iter().map(|b| b.id.to_hex().to_string()).min().unwrap_or_default();
+            v.push((min, *p.id, p.blobs.iter().any(|b| b.tpe == BlobType::Tree)));
+        }
+    }
+    v.sort();
+    Some(v.into_iter().map(|(_, id, t)| (id, t)).collect())
+}
+
+/// destination histories (`H:<kind>:<j>`), after which the destination holds a snapshot's root tree but not everything below:
+///   lose:j   every blob in its own pack; full copy -> pack number j (and j/7 when j is odd) of the destination is lost ->
+///            `repair index` -> the same snapshots are copied again (heals the destination)
+///   prune:j  one tree pack, every chunk in its own pack; copy the first snapshot, then the others together -> forget snapshot j in the
+///            destination -> prune (instant delete, max-repack 0: unused chunk packs go, the partly used tree pack stays) -> copy
+///            the forgotten snapshot again
+/// Oracle after each copy: every snapshot copied so far reads back identically in the destination and check --read-data is clean.
+fn copy_exec(h: &RepoHandle, dest_v1: bool, dest_comp: i32, hist: Option<(&str, usize)>) -> String {
     let Some(snaps) = snaps_by_label(h) else { return "err:snapshots".into() };
     let Ok(src_digests) = all_digests(h) else { return "err:source-unreadable".into() };
     let mut cfg = ConfigOptions::default();
     if !dest_v1 {
         cfg.set_compression = Some(dest_comp);
     }
-    cfg.set_datapack_size = Some(bytesize::ByteSize(2000));
+    cfg.set_datapack_size = Some(bytesize::ByteSize(if hist.is_some() { 16 } else { 2000 }));
+    if matches!(hist, Some(("lose", _))) {
+        cfg.set_treepack_size = Some(bytesize::ByteSize(16));
+    }
     let Some(hd) = init_repo(&cfg, dest_v1) else { return "err:dest-init".into() };
-    let run_n = |n: usize| -> Result<(), Box<rustic_core::RusticError>> {
+    let run_sel = |sel: &[&SnapshotFile]| -> Result<(), Box<rustic_core::RusticError>> {
         let src = open_nc(h)?.to_indexed()?;
         let dst = open_nc(&hd)?.to_indexed_ids()?;
-        src.copy(&dst, snaps.iter().take(n))
+        src.copy(&dst, sel.iter().copied())
     };
+    let run_n = |n: usize| run_sel(&snaps.iter().take(n).collect::<Vec<_>>());
     let run = || run_n(snaps.len());
-    let verify_n = |n: usize| -> Option<&'static str> {
+    let verify_sel = |sel: &[&SnapshotFile]| -> Option<&'static str> {
         // compare by label: every copied snapshot must read back identically in the destination
         let Some(dsnaps) = snaps_by_label(&hd) else { return Some("oracle-fail:copy-dest-snapshots") };
         let drepo = match open_nc(&hd).and_then(Repository::to_indexed) {
             Ok(r) => r,
             Err(_) => return Some("oracle-fail:copy-dest-index"),
         };
-        for s in snaps.iter().take(n) {
+        for s in sel {
             let want = src_digests.get(&s.id.to_hex().to_string());
             let got = dsnaps.iter().find(|d| d.label == s.label).and_then(|d| tree_digest(&drepo, d.tree).ok());
             if want.is_none() || got.as_ref() != want {
@@ -736,7 +763,91 @@ fn copy_exec(h: &RepoHandle, dest_v1: bool, dest_comp: i32) -> String {
         }
         None
     };
+    let verify_n = |n: usize| verify_sel(&snaps.iter().take(n).collect::<Vec<_>>());
     let verify = || verify_n(snaps.len());
+    match hist {
+        None => {}
+        Some(("lose", j)) => {
+            if let Err(e) = run() {
+                return errkind(&e);
+            }
+            if let Some(f) = verify() {
+                return f.into();
+            }
+            let Some(packs) = packs_by_content(&hd) else { return "oracle-fail:copy-dest-index".into() };
+            if packs.is_empty() {
+                return "copied restore=ok".into();
+            }
+            let mut lost = vec![j % packs.len()];
+            if j % 2 == 1 {
+                lost.push((j / 7) % packs.len());
+            }
+            for i in lost {
+                hd.be.del_raw(FileType::Pack, &packs[i].0);
+            }
+            if let Err(e) = open_nc(&hd).and_then(|r| r.repair_index(&RepairIndexOptions::default(), false)) {
+                return format!("{}@dest-repair-index", errkind(&e));
+            }
+            if let Err(e) = run() {
+                return format!("{}@copy-after-loss", errkind(&e));
+            }
+            if let Some(f) = verify() {
+                return format!("{f}-after-loss");
+            }
+            return "copied restore=ok".into();
+        }
+        Some(("prune", j)) => {
+            if snaps.len() < 2 {
+                return "bad-op".into();
+            }
+            let first = if snaps.len() >= 3 { 1 } else { 0 };
+            if first == 1 {
+                if let Err(e) = run_n(1) {
+                    return errkind(&e);
+                }
+                if let Some(f) = verify_n(1) {
+                    return format!("{f}-partial-run");
+                }
+            }
+            let rest: Vec<&SnapshotFile> = snaps.iter().skip(first).collect();
+            if let Err(e) = run_sel(&rest) {
+                return errkind(&e);
+            }
+            if let Some(f) = verify() {
+                return f.into();
+            }
+            // forget one of the snapshots that were copied together, then prune without repacking
+            let b = &snaps[first + j % (snaps.len() - first)];
+            let r = (|| {
+                let repo = open_nc(&hd)?;
+                let ids: Vec<_> = repo.get_all_snapshots()?.iter().filter(|d| d.label == b.label).map(|d| d.id).collect();
+                repo.delete_snapshots(&ids)?;
+                let repo = open_nc(&hd)?.to_indexed_ids()?;
+                let mut po = PruneOptions::default();
+                po.instant_delete = true;
+                po.keep_delete = jiff::Span::new();
+                po.keep_pack = jiff::Span::new();
+                po.max_repack = LimitOption::Size(bytesize::ByteSize(0));
+                let plan = repo.prune_plan(&po)?;
+                repo.prune(&po, plan)
+            })();
+            if let Err(e) = r {
+                return format!("{}@dest-forget-prune", errkind(&e));
+            }
+            let others: Vec<&SnapshotFile> = snaps.iter().filter(|s| s.label != b.label).collect();
+            if let Some(f) = verify_sel(&others) {
+                return format!("{f}-after-prune");
+            }
+            if let Err(e) = run_sel(&[b]) {
+                return format!("{}@copy-after-prune", errkind(&e));
+            }
+            if let Some(f) = verify() {
+                return format!("{f}-copied-again-after-prune");
+            }
+            return "copied restore=ok".into();
+        }
+        Some(_) => return "bad-op".into(),
+    }
     // incremental copy: first only the first half of the snapshots, so that the full copy below finds a destination that already
     // holds some of the blobs (shared sub-trees and chunks) but not all
     if snaps.len() >= 2 {
@@ -770,7 +881,7 @@ fn handle_of(toks: &[&str]) -> Option<(RepoHandle, Vec<String>)> {
     let mut extra = Vec::new();
     let mut rest = Vec::new();
     for t in toks {
-        if t.starts_with("G:") || t.starts_with("O:") || t.starts_with("M:") {
+        if t.starts_with("G:") || t.starts_with("O:") || t.starts_with("M:") || t.starts_with("H:") {
             extra.push((*t).to_string());
         } else {
             rest.push(*t);
@@ -816,7 +927,14 @@ pub fn exec(toks: &[&str]) -> String {
             _ => {
                 let o = extra.iter().find_map(|g| g.strip_prefix("O:")).unwrap_or("0:0");
                 let (a, b) = o.split_once(':').unwrap_or(("0", "0"));
-                copy_exec(&h, a == "1", b.parse().unwrap_or(0))
+                let hist = match extra.iter().find_map(|g| g.strip_prefix("H:")) {
+                    None => None,
+                    Some(x) => match x.split_once(':').and_then(|(k, j)| Some((k, j.parse::<usize>().ok()?))) {
+                        Some(kj) => Some(kj),
+                        None => return "bad-op".to_string(),
+                    },
+                };
+                copy_exec(&h, a == "1", b.parse().unwrap_or(0), hist)
             }
         }
     }))
@@ -1252,7 +1370,18 @@ pub fn generate(thorough: bool, rng: &mut Rng, ops: &mut Vec<String>, stats: &mu
                 if let Some(m) = copy_model(&h) {
                     stats.hit("copy");
                     let o = format!("O:{}:{}", rng.below(2), rng.pick(&[0i32, 3, 10]));
-                    ops.push(finish_line("copy", m, vec![o], &h));
+                    ops.push(finish_line("copy", m.clone(), vec![o.clone()], &h));
+                    // the same source into a destination that loses a pack after the copy and is healed by copying again
+                    stats.hit("copy.dest-history.lose");
+                    ops.push(finish_line("copy", m, vec![o, format!("H:lose:{}", rng.below(1000))], &h));
+                }
+            }
+            // three snapshots (variations share blobs); one is forgotten + pruned in the destination and copied again
+            if let Some(h) = build(rng, stats, 3, false) {
+                if let Some(m) = copy_model(&h) {
+                    stats.hit("copy.dest-history.prune");
+                    let o = format!("O:{}:{}", rng.below(2), rng.pick(&[0i32, 3]));
+                    ops.push(finish_line("copy", m, vec![o, format!("H:prune:{}", rng.below(1000))], &h));
                 }
             }
         }
